@@ -37,14 +37,14 @@ type VSimProduceAction struct {
 
 const (
 	VPOk             = iota
-	VPErrNoAppend          // answer Code, nothing appended
-	VPErrAfterAppend       // append, answer Code (acknowledgement lost at the broker)
-	VPOmitBlock            // append, leave the partition out of the answer
-	VPDropBefore           // close the connection, nothing appended
-	VPDropAfter            // append, close the connection without answering
-	VPSilentBefore         // never answer, nothing appended
-	VPSilentAfter          // append, never answer
-	VPOmitNoAppend         // leave the partition out of the answer, nothing appended
+	VPErrNoAppend    // answer Code, nothing appended
+	VPErrAfterAppend // append, answer Code (acknowledgement lost at the broker)
+	VPOmitBlock      // append, leave the partition out of the answer
+	VPDropBefore     // close the connection, nothing appended
+	VPDropAfter      // append, close the connection without answering
+	VPSilentBefore   // never answer, nothing appended
+	VPSilentAfter    // append, never answer
+	VPOmitNoAppend   // leave the partition out of the answer, nothing appended
 )
 
 // VSimProduced records what the cluster did with one partition batch.
